@@ -261,22 +261,21 @@ Proof. vm_compute. split; reflexivity. Qed.
 (* ================================================================== second extension (C13b) *)
 (* (related statements are grouped into one theorem each: every Print Assumptions costs about a second) *)
 
-(* ---- Write(bits, n) for every width up to 64 ---- *)
-(* (1) any n <= 64: the stream receives the n low bits of `bits`, preceded by the pending bits with those that do not
+(* ---- Write(bits, n) for every width ---- *)
+(* (1) any n (for n > 64: Go's shifts by >= 64 give 0 and Mask(n) is all ones): the stream receives the n low bits of `bits`, preceded by the pending bits with those that do not
        fit the 64-bit accumulator beside them replaced by zeros; nothing else changes;
-   (2) the zeroed bits are exactly the topmost pending + n - 64 pending bits;
+   (2) the zeroed bits are exactly the topmost pending + n - 64 pending bits (all of them for n >= 64);
    (3) so with pending + n <= 64 (every n <= 57 at any alignment, 64 at a byte boundary, n = 0) nothing is lost;
    (4) a value wider than n bits is masked, never spilled into the neighbouring values *)
 Theorem C13_write_widths :
   (forall esc s raw bits n,
-     WInv esc s raw -> n <= 64 ->
+     WInv esc s raw ->
      exists raw',
        WInv esc (write_gen esc s bits n) raw' /\
        bytes_to_bits raw' ++ pending (write_gen esc s bits n)
        = bytes_to_bits raw ++ bits_of (N.to_nat (wn s)) (wv s mod 2 ^ (64 - n)) ++ bits_of (N.to_nat n) bits /\
        exists added, raw' = raw ++ added /\ Forall (fun b => b < 256) added) /\
   (forall wn0 wv0 n,
-     n <= 64 ->
      bits_of wn0 (wv0 mod 2 ^ (64 - n))
      = repeat false (wn0 - N.to_nat (64 - n)) ++ bits_of (Nat.min wn0 (N.to_nat (64 - n))) wv0) /\
   (forall esc s raw bits n,
